@@ -9,6 +9,7 @@ fresh identifier; the returned workspace edit is applied.  The renamed program m
 exactly when the original does, print the same output when run, and no occurrence of the
 binding (the specification's tokens) may keep the old spelling."""
 from ..common import *
+from ..ergprog import conc
 
 LEVEL = "model_checking"
 NEW = "zz9"
@@ -20,6 +21,7 @@ def layout(prog):
     for ln, toks in enumerate(prog):
         col, txt = 0, ""
         for t in toks:
+            t = dict(t, s=conc(t["s"]))      # placeholders of non-ASCII characters
             if t["b"]:
                 occ.setdefault(t["b"], []).append((ln, col, len(t["s"])))
                 spell[t["b"]] = t["s"]
@@ -99,7 +101,7 @@ def run(ctx):
     rejected_originals = set()
     for (i, b, a), new_src, rr in zip(meta, renamed, after):
         src, occ, spell = laid[i]
-        kindb = "function" if spell[b].startswith("f") else "result" if spell[b][0] in "rl" else "parameter-or-global"
+        kindb = "function" if spell[b].startswith("f") else "result" if spell[b][0] in "rlc" else "parameter-or-global"
         first = occ[b][0]
         role = src.split("\n")[first[0]]
         judged += 1
@@ -110,7 +112,7 @@ def run(ctx):
             rejected_originals.add(i)
             judged -= 1
             continue
-        tmpl = sorted({("fshadow" if " * 2" in l else "fdef" if ":=" in l else "lam" if "->" in l else "strlit" if '"' in l else "fclose" if l.startswith("f") else "other")
+        tmpl = sorted({("fshadow" if " * 2" in l else "fdef" if ":=" in l else "lam" if "->" in l else "compr" if "<-" in l else "strlit" if '"' in l else "fclose" if l.startswith("f") else "other")
                        for l in src.split("\n") if spell[b] in l})
         sig_base = {"templates": tmpl, "binding": "shadowing" if sum(1 for x in spell.values() if x == spell[b]) > 1 else "unique"}
         replay = {"src": src, "query": a["q"], "edits": a["edits"], "renamed": new_src, "binding_occurrences": occ[b], "old": spell[b]}
